@@ -101,7 +101,11 @@ def build(decl, opts, dfs, base="Schema"):
     okw = {"data_first_search": dfs}
     if opts["mode"]:
         okw["mode"] = opts["mode"]
-    okw["addition"] = {"none": None, "any": True, "forbid": False, "int": int}[opts["addition"]]
+    # the type extra values are converted to is spelled as a class or, for every other declaration, as a typing construct
+    # with the same meaning on the extra values used here (none of them is None)
+    import typing
+    okw["addition"] = {"none": None, "any": True, "forbid": False,
+                       "int": typing.Optional[int] if len(decl["fields"]) % 2 else int}[opts["addition"]]
     for a, b in (("ignore_required", "ignore_required"), ("no_default", "no_default"), ("defer_default", "defer_default"),
                  ("ignore_conflicts", "ignore_alias_conflicts"), ("ci", "case_insensitive")):
         if opts[a]:
